@@ -244,3 +244,91 @@ def findings(chk):
         subprocess.run(["git", "-C", "/repo", "worktree", "prune"])
         shutil.rmtree(tmp, ignore_errors=True)
         shutil.rmtree(w, ignore_errors=True)
+
+
+def matrix(chk, ids):
+    """Which checks catch which seeded change.  For each seeded/<id>: a scratch worktree of /repo with the patch
+    applied (under /tmp, removed afterwards), a private copy of the harness built against it, every driver family,
+    generator and finding scenario run once (quick tier), every trace validated once; property X's check is said to
+    flag the change iff X fails on a trace that X's plan (lib/plan.py) would have produced.  /repo is not touched."""
+    import subprocess
+    import tempfile
+    import concurrent.futures as cf
+    base = os.path.join(chk.ROOT, "seeded")
+    if not ids:
+        ids = sorted(d for d in os.listdir(base) if os.path.exists(os.path.join(base, d, "patch.diff")))
+    tmp = tempfile.mkdtemp(prefix="vt-matrix-")
+    w = chk.mkwork("selftest-matrix")
+    out = {}
+    try:
+        chk.write_trace_cfg(w, chk.open_ids())
+        h2 = os.path.join(tmp, "harness")
+        shutil.copytree(os.path.join(chk.ROOT, "harness"), h2, ignore=shutil.ignore_patterns("target"))
+        wt = os.path.join(tmp, "wt")
+        toml = open(os.path.join(h2, "Cargo.toml")).read().replace('path = "/repo"', 'path = "%s"' % wt)
+        open(os.path.join(h2, "Cargo.toml"), "w").write(toml)
+        hb = os.path.join(h2, "target", "release", "mctp-verif-harness")
+        fams = sorted({(f if isinstance(f, str) else f[0]) for p in chk.PLAN.values() for f in p.get("families", [])})
+        gens = sorted({g for p in chk.PLAN.values() for k in ("gen", "gen_quick") for g in p.get(k, [])})
+        scens = sorted({s for p in chk.PLAN.values() for s in p.get("scenarios", [])})
+        # generator output does not depend on the code under test: produce it once
+        gen_files = {}
+        for g in gens:
+            gen_files[g] = chk.gen_scenarios(w, g, "quick", 1)[0]
+            os.rename(gen_files[g], gen_files[g] + ".keep")
+            gen_files[g] += ".keep"
+        for i in ids:
+            subprocess.run(["git", "-C", "/repo", "worktree", "remove", "--force", wt], stdout=subprocess.DEVNULL, stderr=subprocess.DEVNULL)
+            subprocess.run(["git", "-C", "/repo", "worktree", "add", "--detach", wt, "HEAD"], stdout=subprocess.DEVNULL, stderr=subprocess.DEVNULL, check=True)
+            subprocess.run(["git", "-C", wt, "apply", os.path.join(base, i, "patch.diff")], check=True)
+            r = subprocess.run(["cargo", "build", "--release", "--offline"], cwd=h2, stdout=subprocess.PIPE, stderr=subprocess.STDOUT, text=True)
+            if r.returncode != 0:
+                print("%s: does not build: %s" % (i, r.stdout[-400:]))
+                continue
+            traces = []
+            env = dict(os.environ, VERIF_ALPHABET=os.path.join(w, "alphabet.json"))
+            for f in fams:
+                tr = os.path.join(w, "%s-%s.ndjson" % (i, f))
+                subprocess.run([hb, "drive", f, "quick", "1", tr], env=env, check=True, stdout=subprocess.DEVNULL, stderr=subprocess.DEVNULL)
+                traces.append((f, tr))
+            for g, scn in gen_files.items():
+                tr = os.path.join(w, "%s-gen-%s.ndjson" % (i, g))
+                subprocess.run([hb, "run", scn, tr], check=True, stdout=subprocess.DEVNULL, stderr=subprocess.DEVNULL)
+                traces.append(("gen:" + g, tr))
+            for sc in scens:
+                tr = os.path.join(w, "%s-scn-%s.ndjson" % (i, os.path.basename(sc)))
+                subprocess.run([hb, "run", os.path.join(chk.ROOT, sc), tr], check=True, stdout=subprocess.DEVNULL, stderr=subprocess.DEVNULL)
+                traces.append(("scn:" + sc, tr))
+            parts = []
+            for tag, tr in traces:
+                parts.extend(chk.split_trace(tr, tag))
+            fails = {}
+            with cf.ThreadPoolExecutor(max_workers=10) as ex:
+                futs = {ex.submit(chk.validate, w, tr): tag for tag, tr, _ in parts}
+                for fu in cf.as_completed(futs):
+                    tag = futs[fu].split("#")[0]
+                    s = fu.result()
+                    fails[tag] = fails.get(tag, set()) | {p for p in chk.PROPS if s["first"][p]}
+            for tag, tr, _ in parts:
+                if os.path.exists(tr):
+                    os.remove(tr)
+            flagged = []
+            for p in chk.PROPS:
+                pl = chk.PLAN[p]
+                mine = {(f if isinstance(f, str) else f[0]) for f in pl.get("families", [])} | \
+                       {"gen:" + g for k in ("gen", "gen_quick") for g in pl.get(k, [])} | {"scn:" + s for s in pl.get("scenarios", [])}
+                if any(p in fails.get(t, ()) for t in mine):
+                    flagged.append(p)
+            anywhere = sorted({p for v in fails.values() for p in v})
+            out[i] = {"checks_flagging": flagged, "properties_failing_on_some_trace": anywhere}
+            meta = json.load(open(os.path.join(base, i, "meta.json")))
+            meta["matrix"] = out[i]
+            json.dump(meta, open(os.path.join(base, i, "meta.json"), "w"), indent=1)
+            print("%-8s flagged by checks: %s" % (i, " ".join(flagged) or "-"), flush=True)
+        json.dump(out, open(os.path.join(base, "MATRIX.json"), "w"), indent=1, sort_keys=True)
+        return 0
+    finally:
+        subprocess.run(["git", "-C", "/repo", "worktree", "remove", "--force", os.path.join(tmp, "wt")], stdout=subprocess.DEVNULL, stderr=subprocess.DEVNULL)
+        subprocess.run(["git", "-C", "/repo", "worktree", "prune"])
+        shutil.rmtree(tmp, ignore_errors=True)
+        shutil.rmtree(w, ignore_errors=True)
